@@ -178,9 +178,15 @@ def run(tier):
         parses = [bi for bi, t in f.calls() if (t[1].get("d") or "").endswith("Parser::<'a>::parse_program")]
         if not parses or not str(f.vis if hasattr(f, "vis") else "").startswith("pub") and p.split("::")[-1] not in ("eval", "prepare"):
             continue
-        clears = [t[4] for bi, t in f.calls() if (t[1].get("d") or "").endswith(("::clear", "::drain")) and t[2] and t[2][0][0] in ("c", "m")
-                  and (E.field_of_ref(f, t[2][0][1][0]) or (None, None, None))[2] == "exports" and t[4] is not None and t[4] >= 0]
-        ok = any(all(f.dominates(c0, pb) for pb in parses) for c0 in clears)
+        def clears_exports(g):
+            return any((t[1].get("d") or "").endswith(("::clear", "::drain")) and t[2] and t[2][0][0] in ("c", "m")
+                       and (E.field_of_ref(g, t[2][0][1][0]) or (None, None, None))[2] == "exports" for _, t in g.calls())
+        clear_blocks = {bi for bi, t in f.calls() if ((t[1].get("d") or "").endswith(("::clear", "::drain")) and t[2] and t[2][0][0] in ("c", "m")
+                                                       and (E.field_of_ref(f, t[2][0][1][0]) or (None, None, None))[2] == "exports")
+                        or (t[1].get("local") and t[1].get("d") in fx.fns and clears_exports(fx.fns[t[1]["d"]]))}
+        # every path from the entry to the parse passes a point that empties the table (directly, or by disposing of the previous run)
+        reach = set() if 0 in clear_blocks else (f.reachable_from(0, stop=clear_blocks) | {0})
+        ok = bool(clear_blocks) and not any(pb in reach and pb not in clear_blocks for pb in parses)
         ck.instance("R6b.run-starts-clean", p, F.short_span(f.span), ok=ok)
         if not ok:
             ck.finding("R6b.run-starts-clean", "R6b.run-starts-clean/%s" % p, F.short_span(f.span),
@@ -311,7 +317,7 @@ def run(tier):
                        "prepare() does not look at `%s` when it decides whether a previous run must be disposed of: a run abandoned while it was suspended there "
                        "keeps its scope installed and its continuation waiting - `prepare('1 + 1')` after an abandoned `await new Promise(() => {})` reports Suspended" % slot)
     # R3b: once step() has rebuilt or stepped a VM, every error it returns goes through the disposal of the run
-    ck.rule("R3b.step-error-exits", "step(): every Err exit that lies behind the reconstruction (from_saved_state) or the stepping of a VM passes abort/finalize", floor=2)
+    ck.rule("R3b.step-error-exits", "step(): every Err exit that lies behind the reconstruction (from_saved_state) or the stepping of a VM passes abort/finalize", floor=1)
     closers3 = [t[4] for bi, t in st.calls() if (t[1].get("d") or "").endswith(("Interpreter::abort_active_execution", "Interpreter::finalize_active_execution"))
                 and t[4] is not None and t[4] >= 0]
     live = [bi for bi, t in st.calls() if (t[1].get("d") or "").endswith(("BytecodeVM::from_saved_state", "BytecodeVM::step"))]
